@@ -84,6 +84,7 @@ def fold(rep: Report, prop, jobs, results, explanation, extra_cov=None, min_conc
     nprog = 0
     not_prog = 0
     trunc = 0
+    trunc_ids = []
     crashed = 0
     divergences = []
     unmodelled = {}
@@ -107,6 +108,7 @@ def fold(rep: Report, prop, jobs, results, explanation, extra_cov=None, min_conc
         solver_s += r.get("solver_s", 0.0)
         if r.get("truncated"):
             trunc += 1
+            trunc_ids.append(f"{r['id']} (paths {r.get('paths')})")
         for d in r.get("divergences", []):
             divergences.append({"job": r["id"], **d})
         for k, v in r.get("unmodelled", {}).items():
@@ -149,7 +151,7 @@ def fold(rep: Report, prop, jobs, results, explanation, extra_cov=None, min_conc
         "outside_claim_paths": tot["outside"], "known_finding_paths": tot["known"], "path_errors": tot["errors"],
         "branch_queries": tot["branch_queries"], "assert_queries": tot["assert_queries"], "solver_s": round(solver_s, 2),
         "witnesses_validated_against_real_engines": tot["validated"], "model_divergences": len(divergences),
-        "model_divergence_samples": divergences[:5], "truncated_programs": trunc, "unmodelled": dict(sorted(unmodelled.items(), key=lambda kv: -kv[1])[:12]),
+        "model_divergence_samples": divergences[:5], "truncated_programs": trunc, "truncated_program_ids": trunc_ids[:12], "unmodelled": dict(sorted(unmodelled.items(), key=lambda kv: -kv[1])[:12]),
         "known_finding_taints_used": kf_used, "samples": samples, "inconclusive_programs": inconclusive_jobs,
         "evaluations": tot["paths"], "distinct_nontrivial": tot["paths"],
         "rule": "one evaluation = one solver-feasible structural path of one program at one row-count vector",
